@@ -84,7 +84,32 @@ def query_sql(q, src, fcol):
         return f"SELECT {f} FROM {src} WHERE {f} > 0"
     if q == "expr":
         return f"SELECT {f} + 1 AS d FROM {src}"
+    if q == "cast":
+        return f'SELECT CAST({f} AS BIGINT) AS k, {f} AS "F2" FROM {src}'
+    if q in ("ren", "bad2", "temp"):
+        return f"SELECT {f} FROM {src}"
+    if q == "dup":
+        return f"SELECT l.{f}, r.{f} FROM {src} AS l CROSS JOIN {src} AS r"
     raise ValueError(q)
+
+
+API_TABLE = {"cols": [{"name": "c1", "kind": "i"}, {"name": "c2", "kind": "s"}], "rows": [[{"k": "i", "v": 1}, {"k": "s", "v": 1}]]}
+
+
+def api_step(s):
+    """Steps that go through the Rust API of SessionContext (the reference string is parsed by TableReference::from)."""
+    st = s["st"]
+    k = st["k"]
+    r = ref_sql(st["ref"])
+    if k == "api_register_table":
+        return {"op": "register_table", "ref": r, "table": API_TABLE}
+    if k == "api_register_view":
+        return {"op": "register_view", "ref": r, "query": query_sql(st["q"], ref_sql(st["src"]), s["fcol"])}
+    if k == "api_deregister":
+        return {"op": "deregister_table", "ref": r}
+    if k == "api_exists":
+        return {"op": "table_exist", "ref": r}
+    return None
 
 
 def render_stmt(s):
@@ -97,13 +122,25 @@ def render_stmt(s):
     if k == "drop_schema":
         return f"DROP SCHEMA {'IF EXISTS ' if st['ifx'] else ''}{ref_sql(st['ref'])}{' CASCADE' if st['casc'] else ''}"
     if k == "create_table":
-        head = f"CREATE {'OR REPLACE ' if st['orr'] else ''}TABLE {'IF NOT EXISTS ' if st['ine'] else ''}{ref_sql(st['ref'])}"
+        temp = "TEMPORARY " if st["q"] == "temp" else ""
+        head = f"CREATE {'OR REPLACE ' if st['orr'] else ''}{temp}TABLE {'IF NOT EXISTS ' if st['ine'] else ''}{ref_sql(st['ref'])}"
         if st["shape"]:
             sh = SHAPES[st["shape"]]
             return head + (sh if sh.startswith("(") else " " + sh)
-        return head + " AS " + query_sql(st["q"], ref_sql(st["src"]), s["fcol"])
+        decl = {"ren": "(x BIGINT)", "bad2": "(x BIGINT, y INT)"}.get(st["q"], "")
+        return head + decl + " AS " + query_sql(st["q"], ref_sql(st["src"]), s["fcol"])
     if k == "create_view":
-        return f"CREATE {'OR REPLACE ' if st['orr'] else ''}VIEW {ref_sql(st['ref'])} AS " + query_sql(st["q"], ref_sql(st["src"]), s["fcol"])
+        decl = " (x)" if st["q"] == "ren" else ""
+        temp = "TEMPORARY " if st["q"] == "temp" else ""
+        return f"CREATE {'OR REPLACE ' if st['orr'] else ''}{temp}VIEW {ref_sql(st['ref'])}{decl} AS " + query_sql(st["q"], ref_sql(st["src"]), s["fcol"])
+    if k == "describe":
+        return f"DESCRIBE {ref_sql(st['ref'])}"
+    if k == "show_columns":
+        return f"SHOW COLUMNS FROM {ref_sql(st['ref'])}"
+    if k == "show_tables":
+        return "SHOW TABLES"
+    if k.startswith("api_"):
+        return "-- Rust API: " + json.dumps(api_step(s))
     if k == "drop_table":
         return f"DROP TABLE {'IF EXISTS ' if st['ifx'] else ''}{ref_sql(st['ref'])}"
     if k == "drop_view":
@@ -111,7 +148,17 @@ def render_stmt(s):
     if k == "insert":
         return f"INSERT INTO {ref_sql(st['ref'])} VALUES ({', '.join(lit(v) for v in st['row'])})"
     if k == "select":
-        return f"SELECT * FROM {ref_sql(st['ref'])}"
+        r = ref_sql(st["ref"])
+        q = st["q"]
+        if q == "pos":
+            f = col_ident(s["cols"][0]["n"]) if s["cols"] else "c1"
+            return f"SELECT {f} FROM {r} WHERE {f} > 0"
+        if q == "last":
+            f = col_ident(s["cols"][0]["n"]) if s["cols"] else "c1"
+            return f"SELECT {f} FROM {r}"
+        if q == "lim":
+            return f"SELECT * FROM {r} LIMIT 1"
+        return f"SELECT * FROM {r}"
     raise ValueError(k)
 
 
@@ -119,7 +166,10 @@ def render_history(c):
     steps = []
     for s in c["steps"]:
         s["sql"] = render_stmt(s)
-        steps.append({"sql": s["sql"], "obs": OBS})
+        step = {"sql": s["sql"], "obs": OBS}
+        if s["st"]["k"].startswith("api_"):
+            step["api"] = api_step(s)
+        steps.append(step)
     return {"id": c["id"], "config": {"information_schema": True, "target_partitions": 2}, "tables": [], "steps": steps}
 
 
@@ -143,8 +193,13 @@ def srt(rows):
     return sorted(rows, key=lambda t: tuple("" if x is None else str(x) for x in t))
 
 
+K_SHOWCOLS = "show-columns-partially-qualified-lists-other-schemas"
+report_known = []      # (step, message, key) of known-finding observations of the history being checked (state not diverged)
+
+
 def check_history(c, res):
     n = 0
+    report_known.clear()
     for i, (s, r) in enumerate(zip(c["steps"], res["steps"])):
         st = s["st"]
         P = lambda msg: (n, {"step": i, "msg": msg})
@@ -157,6 +212,36 @@ def check_history(c, res):
             cnt = r["rows"][0][0]["v"] if r["rows"] else None
             if cnt != s["count"]:
                 return P(f"INSERT reported {cnt}, expected {s['count']}")
+        if s["ok"] and st["k"] in ("api_deregister", "api_exists"):
+            got = r["rows"][0][0]["v"] if r["rows"] else None
+            if got != s["count"]:
+                return P(f"{st['k']} returned {bool(got)}, expected {bool(s['count'])}")
+        if s["ok"] and st["k"] in ("describe", "show_columns"):
+            want = [(x["n"], x["t"], "NO" if x["nn"] else "YES") for x in s["cols"]]
+            if st["k"] == "show_columns":
+                want = [tuple(s["tgt"]) + w for w in want]
+            got = [tuple(sval(v) for v in row) for row in r["rows"]]
+            if got != want:
+                key = None
+                if st["k"] == "show_columns" and all(w in got for w in want):
+                    # known finding: same-named tables of other schemas / catalogs that agree with the written qualifiers
+                    ref = st["ref"]
+                    others = [(o["c"], o["s"], o["n"], col["n"], col["t"], "NO" if col["nn"] else "YES")
+                              for o in s["columns"] for col in o["cols"]
+                              if o["n"] == s["tgt"][2] and (o["c"], o["s"]) != tuple(s["tgt"][:2])
+                              and (ref["s"]["x"] == "" or o["s"] == s["tgt"][1]) and (ref["c"]["x"] == "" or o["c"] == s["tgt"][0])]
+                    extra = [g for g in got if g not in want]
+                    if extra and sorted(extra) == sorted(others):
+                        key = K_SHOWCOLS
+                if key:
+                    report_known.append((i, f"{s['sql']} returned {got}, the object's columns are {want}", key))
+                else:
+                    return P(f"{s['sql']} returned {got}, the object's columns are {want}")
+        if s["ok"] and st["k"] == "show_tables":
+            got = srt([tuple(sval(v) for v in row) for row in r["rows"] if sval(row[1]) != "information_schema"])
+            # the state before this statement = the state after it
+            if got != srt([tuple(t) for t in s["tables"]]):
+                return P(f"SHOW TABLES returned {got}, expected exactly {srt([tuple(t) for t in s['tables']])}")
         if s["ok"] and st["k"] == "select":
             names = [x["n"] for x in s["cols"]]
             types = [x["t"] for x in s["cols"]]
@@ -167,7 +252,10 @@ def check_history(c, res):
             if not s["unspec"]:
                 want = [[{"k": v["k"], "v": v["v"]} for v in row] for row in s["rows"]]
                 got = [[{"k": v["k"], "v": v["v"]} for v in row] for row in r["rows"]]
-                if sqlcases.bag(got) != sqlcases.bag(want):
+                if st["q"] == "lim":
+                    if len(got) != min(1, len(want)) or not sqlcases.sub_bag(sqlcases.bag(got), sqlcases.bag(want)):
+                        return P(f"LIMIT 1 returns {got}, the object has rows {want[:6]}")
+                elif sqlcases.bag(got) != sqlcases.bag(want):
                     return P(f"query returns {len(got)} rows {got[:4]}, the reference {len(want)} rows {want[:4]}")
         # information schema after the statement
         ot, oc, ov, osch = r["obs"]
@@ -209,12 +297,18 @@ def evaluate(ctx, cases, res, stats, report=True):
     flagged = 0
     for c in cases:
         n, prob = check_history(c, res[c["id"]])
+        for (i, msg, key) in list(report_known):
+            stats["known:" + key] += 1
+            if report:
+                report_violation(ctx, {"case": c, "step": i, "sql": [s["sql"] for s in c["steps"]],
+                                       "engine": res[c["id"]]["steps"][i], "oracle": msg}, key=key)
         stats["steps_compared"] += n
         for s in c["steps"][:n]:
             st = s["st"]
             tag = st["k"] + (":or_replace" if st["orr"] else "") + (":if_not_exists" if st["ine"] else "") + \
                 (":if_exists" if st["ifx"] else "") + (":cascade" if st["casc"] else "") + \
-                (":as_select" if st["k"] == "create_table" and not st["shape"] else "")
+                (":as_select" if st["k"] == "create_table" and not st["shape"] else "") + \
+                ((":" + st["q"]) if st["q"] in ("cast", "ren", "bad2", "dup", "temp", "pos", "last", "lim") else "")
             stats[("ok " if s["ok"] else "fail ") + tag] += 1
             if st["k"] == "select" and s["ok"]:
                 if s["unspec"]:
@@ -222,6 +316,12 @@ def evaluate(ctx, cases, res, stats, report=True):
                 elif s["rows"]:
                     stats["select_nonempty_compared"] += 1
             stats["max_objects"] = max(stats["max_objects"], len(s["tables"]))
+            if s["ok"] and s["tgt"][0] == "c2" and st["k"] in ("create_table", "create_view", "insert", "select", "api_register_table"):
+                stats["ok statements on objects of catalog c2"] += 1
+            if any(t[2] == "a.b" for t in s["tables"]):
+                stats["dotted_name_objects"] += 1
+            if s["ok"] and st["k"] == "select" and s["unspec"]:
+                stats["select_from_view_whose_source_was_replaced_or_dropped"] += 1
             if s["views"]:
                 stats["steps_with_views"] += 1
         if prob:
@@ -273,9 +373,18 @@ def run(ctx):
                                      "insert", "select") for o in ("ok", "fail")} | {"create_database ok"}
         if need - kinds:
             raise ToolError(f"vacuity: outcomes never compared: {sorted(need - kinds)}")
+        need |= {f"{k} {o}" for k in ("describe", "show_columns", "api_register_table", "api_deregister", "api_exists") for o in ("ok", "fail")}
+        need |= {"show_tables ok", "api_register_view ok"}
+        if need - kinds:
+            raise ToolError(f"vacuity: outcomes never compared: {sorted(need - kinds)}")
         for k in ("ok create_table:or_replace", "ok create_view:or_replace", "ok create_table:if_not_exists", "ok drop_table:if_exists",
-                  "select_nonempty_compared", "steps_with_views"):
-            if not any(x.startswith(k) for x in stats if stats[x] > 0):
+                  "select_nonempty_compared", "steps_with_views", "ok drop_schema:cascade", "ok create_table:as_select:cast",
+                  "ok create_table:as_select:ren", "fail create_table:as_select:bad2", "ok create_view:ren", "ok create_view:cast",
+                  "ok statements on objects of catalog c2", "select_from_view_whose_source_was_replaced_or_dropped",
+                  "ok select:pos", "ok select:last", "ok select:lim", "fail:dup", "fail:temp", "dotted_name_objects") + \
+                (() if ctx.quick else ("fail create_table:dup", "fail create_view:dup", "fail create_table:temp", "fail create_view:temp")):
+            parts = set(k.replace("fail:", "fail :").split(":"))
+            if not any(parts <= set(x.replace("fail ", "fail :").replace("ok ", "ok :").split(":")) | {x.split(":")[0]} for x in stats if stats[x] > 0):
                 raise ToolError(f"vacuity: never compared a step of class {k}")
     samples = [{"id": c["id"], "steps": [{"sql": s["sql"], "expect_ok": s["ok"], "expect_tables": s["tables"]} for s in c["steps"]]}
                for c in cases[:2]]
